@@ -138,7 +138,12 @@ class C06(Prop):
             for _ in range(steps):
                 r = rng.random()
                 if left and r < 0.3:
-                    ops.append([7, rand_resp(rng, 8192 if rng.random() < 0.1 else 120, 3)])
+                    resp = rand_resp(rng, 8192 if rng.random() < 0.1 else 120, 3)
+                    if rng.random() < 0.15:
+                        # an explicit Content-Length (none, or one that differs from the body): the serialisation the
+                        # connection must send is still exactly what Response::write_all produces
+                        resp[2].insert(rng.randint(0, len(resp[2])), rng.choice([[7], [7, rng.randint(0, 100)], [7], [8, rng.randint(1, 50)]]))
+                    ops.append([7, resp])
                     left -= 1
                 elif r < 0.33:
                     ops.append([9])
